@@ -64,7 +64,7 @@ class Frame:
 class Run:
     def __init__(self, scenario, parent_dir=None, interposer=None):
         self.sc = scenario
-        self.sb = Sandbox(tuple(scenario.get('cache', ['k'])), parent=parent_dir)
+        self.sb = Sandbox(tuple(scenario.get('cache', ['k'])), parent=parent_dir, key=scenario.get('id'))
         self.events = []
         self.exc_n = 0
         self.build_no = 0
@@ -541,8 +541,11 @@ class Run:
                 self.sinks[threading.get_ident()] = blocks[i]
                 try:
                     sub = dict(stmt)
-                    sub['catch'] = True
-                    results[i] = self.call_complex(builder, fr, sub)
+                    if sub['s'] == 'q':          # a query issued directly by the thread
+                        results[i] = self.query(builder, fr, sub)
+                    else:
+                        sub['catch'] = True
+                        results[i] = self.call_complex(builder, fr, sub)
                 finally:
                     self.sinks.pop(threading.get_ident(), None)
             return fn
@@ -563,7 +566,7 @@ class Run:
             inv = [e for e in block if e['ev'] == 'invoke']
             rejected = bool(last is not None and not last['inv'] and last['out'] == 'raised'
                             and last.get('err') == 'RuntimeError')
-            t = inv[0]['_g'] if inv else (last['_g'] if last else 0)
+            t = inv[0]['_g'] if inv else (last['_g'] if last else (block[0]['_g'] if block else 0))
             return (1 if rejected else 0, t)
         order = sorted(range(len(blocks)), key=lambda i: key(blocks[i]))
         for i in order:
